@@ -26,6 +26,7 @@ Programs with a predicted error or with '.' are assembled one expression per pro
 import random
 import re
 import struct
+import zlib
 import time
 from concurrent.futures import ThreadPoolExecutor
 from collections import Counter
@@ -380,9 +381,10 @@ class Replayer:
                 self.n["infix_" + t] += 1
         self.n["depth_%d" % depth] += 1
         has_dot = "#dot" in toks
-        for _ in range(variants):
+        for vi in range(variants):
             self.serial += 1
-            r = (tuple(toks), st, rec["v"], self.serial)
+            # the rendering choices are a function of the token string (TLC's workers export in a run-dependent order)
+            r = (tuple(toks), st, rec["v"], (zlib.crc32(" ".join(toks).encode()) & 0x3FFFFFF) * 4 + vi % 4)
             if st == "ok" and not has_dot:
                 self.batch.append(r)
             else:
@@ -427,10 +429,12 @@ class Replayer:
         if not self.pending():
             return
         seed = self.run.seed
-        rnd = random.Random(seed * 7919 + self.serial)
         tasks = []
+        self.batch.sort(key=lambda r: (r[0] == "lit", r[3] if r[0] != "lit" else 0, repr(r[:2])))
+        self.single.sort(key=lambda x: (x[0][0] == "lit", x[0][3] if x[0][0] != "lit" else 0, repr(x[0][:2]), len(x[0])))
         for i in range(0, len(self.batch), self.BATCH):
             recs = self.batch[i:i + self.BATCH]
+            rnd = random.Random(seed * 7919 + zlib.crc32(repr(recs[0][:2]).encode()))
             link_pos = "top" if rnd.random() < 0.3 else "end"
             if rnd.random() < 0.6:       # 'a' block at address 0: labels a<k> have the absolute value k
                 prog = (recs, link_pos, ("base", 0), True, True)
@@ -439,6 +443,7 @@ class Replayer:
             tasks.append(("batch", seed, [prog]))
         progs = []
         for r, dot_v in self.single:
+            rnd = random.Random(seed * 7919 + zlib.crc32(repr(r[:2]).encode()) + len(r))
             link_pos = "top" if rnd.random() < 0.4 else "end"
             if len(r) > 4:
                 progs.append(([r], ("top", "end")[r[3] % 2], ("base", 0o1000), False, False))
